@@ -113,7 +113,14 @@ func (p *Path) callMarker(th *thread, caller *frame, pos token.Pos, mc *markerCa
 			for i := range pt {
 				pt[i] = p.input("u8", 8)
 			}
+			if p.forgedFirst > 0 && len(pt) > 0 {
+				// decomposition: the crypto layer is explored with a forged plaintext whose first byte is a
+				// fixed (unsupported) message kind; arbitrary plaintext contents are explored without encryption
+				p.addPC(Cmp(OEq, pt[0], BV(8, uint64(p.forgedFirst))))
+				p.setModel(nil)
+			}
 			p.cover("engine.aead.open.forged")
+			p.hostile("forged-plaintext")
 			return TupleVal{mkByteSlice(pt), IfaceVal{}}
 		}
 		return TupleVal{SliceVal{Nil: true}, p.opaqueErr("cipher: message authentication failed")}
@@ -195,6 +202,9 @@ func (p *Path) callMarker(th *thread, caller *frame, pos token.Pos, mc *markerCa
 					}
 				}
 				p.cover("engine.lzw.hostile")
+				if st[2].(*Term).Val != 2 {
+					p.hostile("lzw")
+				}
 			}
 			st[1] = mkByteSlice(out)
 			st[2] = BV(8, 1)
